@@ -112,6 +112,13 @@ ThrsTab(cl) ==
 
 ASSUME TablesAreTheirDefinitions == \A c \in AllClusters : ValsTab(c) = ValsOf(c) /\ ThrsTab(c) = ThrsOf(c)
 
+(* the laws of the order on numbers hold for every (value, threshold) pair an instance can contain: they are
+   facts about the tables, not about reachable states, so TLC evaluates them once *)
+ASSUME OrderIsTotal ==
+  \A c \in AllClusters : \A i \in DOMAIN ValsTab(c) : \A j \in DOMAIN ThrsTab(c) : OrderLaws(ValsTab(c)[i], ThrsTab(c)[j])
+ASSUME SpellingFree ==
+  \A c \in AllClusters : \A i \in DOMAIN ValsTab(c) : \A j \in DOMAIN ThrsTab(c) : SpellingLaw(ValsTab(c)[i], ThrsTab(c)[j])
+
 VARIABLES stage, x, cl, ty, exp
 vars == <<stage, x, cl, ty, exp>>
 
@@ -171,9 +178,9 @@ TypeOK == stage \in {"fields", "done"}
 
 Tested == IF x.fld = "RF" THEN (IF x.hasRF THEN x.rf ELSE <<>>) ELSE (IF x.hasAF THEN x.af ELSE <<>>)
 
-OrderIsTotal   == Done => \A i \in DOMAIN Tested : OrderLaws(Tested[i], x.thr)
-SpellingFree   == Done => \A i \in DOMAIN Tested : SpellingLaw(Tested[i], x.thr)
-UnitsAgree     == Done => UnitsAgreeOn(x)
+UnitsAgree == Done => UnitsAgreeOn(x, exp)
+(* checked on the records without REFMASKED (the flag does not enter the comparison) *)
+OnePassIsDeclarative == (Done /\ ~x.refmasked) => XExpectIsDeclarative(x, exp)
 
 RefNeverRemoved == Done => exp.kept # <<>> /\ exp.kept[1] = 1
 AltRemovedIffFails ==
